@@ -289,7 +289,9 @@ PROPS = {
         "assumptions": EVAL_ASSUME,
     },
     "C04": {
-        "proof_modules": ["GrolProofs.Props.C04", "GrolProofs.MemoMono", "GrolProofs.MemoFootprint", "GrolProofs.MemoKey"],
+        "proof_modules": ["GrolProofs.Props.C04", "GrolProofs.Props.C04Det", "GrolProofs.MemoMono", "GrolProofs.MemoFootprint", "GrolProofs.MemoKey",
+                          "GrolProofs.RenQBase", "GrolProofs.RenQEnv", "GrolProofs.RenQVal", "GrolProofs.RenQOps", "GrolProofs.RenQHelpers",
+                          "GrolProofs.RenQMain"],
         "theorems": ["Grol.E.C04.off_get", "Grol.E.C04.off_set", "Grol.E.C04.replay", "Grol.E.C04.store_condition",
                      "Grol.E.C04.set_get", "Grol.E.C04.get_pure",
                      "Grol.E.C04.miss_monotone", "Grol.E.C04.quiet_inherited", "Grol.E.C04.no_del_in_quiet_call",
@@ -297,7 +299,13 @@ PROPS = {
                      "Grol.E.envGet_quiet", "Grol.E.functionChanged_loud", "Grol.E.envStoreAt_loud", "Grol.E.no_function_change_during", "Grol.E.no_function_write_during", "Grol.E.C04.key_identity", "Grol.E.keyEq_eq",
                      "Grol.E.allTr", "Grol.E.eval_grows", "Grol.E.applyFunction_grows", "Grol.E.quiet_bind", "Grol.E.quiet_during",
                      "Grol.E.triggerNoCache_loud", "Grol.E.evalDelete_loud", "Grol.E.finishCall_quiet", "Grol.E.applyFunction_quiet",
-                     "Grol.E.makeRef_go_quiet", "Grol.E.no_trigger_during", "Grol.E.no_del_during", "Grol.E.nested_call_during"],
+                     "Grol.E.makeRef_go_quiet", "Grol.E.no_trigger_during", "Grol.E.no_del_during", "Grol.E.nested_call_during",
+                     "Grol.E.C04.quiet_call_deterministic", "Grol.E.C04.quiet_call_depends_only_on_trusted", "Grol.E.C04.agree_stRq",
+                     "Grol.E.stRq_miss", "Grol.E.det_agree", "Grol.E.det_run", "Grol.E.ren_id",
+                     "Grol.R.qSpec_all", "Grol.R.applyFunction_qstep", "Grol.R.finishCall_loud", "Grol.R.SimG.switch", "Grol.R.SimQ.bind",
+                     "Grol.R.StRq.retarget", "Grol.R.qsim_makeRef_go", "Grol.R.qsim_makeRef", "Grol.R.qsim_envGet", "Grol.R.qsim_valueOf",
+                     "Grol.R.qsim_createOrSet", "Grol.R.qsim_setNoChecks", "Grol.R.qsim_extendFunctionEnv", "Grol.R.qsim_finishCall",
+                     "Grol.R.qsim_evalInfixOp", "Grol.R.qsim_indexIdx", "Grol.R.mapSet_clean", "Grol.R.mapAppend_clean"],
         "suites": [["eval", "C04"], "extcache"],
         "rule": EVAL_RULE + " C04 statement: per input, output/value/error/panic are identical with the cache on and off (both register settings).",
         "trusted_base": EVAL_TB,
